@@ -16,7 +16,8 @@ RULE = (
     "Generated: a single-path tree (Bin, SparselyBin, CentrallyBin, IrregularlyBin, Categorize, Select nested "
     "arbitrarily over any leaf, flows included; no fan-out collections), a weighted stream, and for a generated subset "
     "of stream positions a fault (depth of the node whose quantity fails; mode: raise ValueError, or return a wrong "
-    "type - string / None / list for numeric quantities, float / list for categories).  The schedule is part of the "
+    "type - string / None / list for numeric quantities, float / list for categories; or the almost-right numpy.bool_, "
+    "which a node may refuse (before anything changed) or accept (then it counts exactly like the Python bool True)).  The schedule is part of the "
     "shrinkable case: rows carry fail_at / fail_mode and the generated quantity functions consult them.  Oracle: a row "
     "whose fault is reached (decided by the harness's own routing) makes fill raise and leaves the root's document "
     "exactly as before (no counter moved, no new bin); a row whose fault is not reached, or that has none, does not "
@@ -30,7 +31,7 @@ ASSUMPTIONS = [
 ]
 
 SINGLE_PATH = ("Bin", "SparselyBin", "SparselyBin", "CentrallyBin", "IrregularlyBin", "Categorize", "Categorize", "Select") + gen.LEAF_KINDS + ("Count", "Count", "Count")
-MODES = ("raise", "wrong-a", "wrong-b", "wrong-c")
+MODES = ("raise", "wrong-a", "wrong-b", "wrong-c", "wrong-d")
 
 
 def strategy(tier):
@@ -76,6 +77,15 @@ def strategy(tier):
 def wrong_value(q, mode):
     """A value of the wrong type for quantity q (never a legitimately accepted one)."""
     t = q["t"]
+    if mode == "wrong-d":
+        # almost right: a numpy.bool_ is neither a numbers.Real nor a bool.  Most fills refuse it (known finding
+        # c03-row-numpy-bool), Bag accepts it: either is fine here - refused before anything changed, or accepted
+        # and counted exactly like the Python bool True
+        import numpy as np  # noqa: PLC0415
+
+        return np.bool_(True)
+    if mode == "py-true":
+        return True
     if t == "cat":  # string/bool category; None and NaN are legitimate ('NaN' category)
         return {"wrong-a": 1.5, "wrong-b": [1.0], "wrong-c": 7}[mode]
     if t == "pair":
@@ -221,6 +231,12 @@ def check(case):
         except (ValueError, TypeError, AssertionError) as e:
             raised = e
         after = norm.norm(h.toJson())
+        if fails and raised is None and row.get("fail_mode") == "wrong-d":
+            # accepted: then it must count like the equal Python value
+            twin.fill(dict(row, fail_mode="py-true"), w)
+            successes += 1
+            before = after
+            continue
         if fails:
             nfaults += 1
             require(raised is not None, "fault-swallowed", f"row {i} ({row.get('fail_mode')} at depth {row.get('fail_at')}) did not make fill raise")
